@@ -481,7 +481,9 @@ inline bool
 Generator::ascii_load(std::istream& s) {
   std::string str;
 
-  expr.ascii_load(s);
+  if (!expr.ascii_load(s)) {
+    return false;
+  }
 
   if (!(s >> str)) {
     return false;
@@ -517,6 +519,11 @@ Generator::ascii_load(std::istream& s) {
     else {
       return false;
     }
+  }
+
+  // A not necessarily closed row has the epsilon coefficient.
+  if (is_not_necessarily_closed() && expr.space_dimension() == 0) {
+    return false;
   }
 
   // Checking for equality of actual and declared types.
